@@ -1,9 +1,11 @@
 package main
 
 import (
+	"fmt"
 	"net/http"
 	"sort"
 	"strings"
+	"time"
 
 	"github.com/jub0bs/cors"
 	"github.com/jub0bs/cors/internal/zzverif/ref"
@@ -155,3 +157,129 @@ func firstDiff(a, b []string) int {
 }
 
 var noopHandler = http.HandlerFunc(func(http.ResponseWriter, *http.Request) {})
+
+// Construction routes. The documentation promises that all of them yield the same middleware (C06, C08, C09);
+// the HTTP-level checks therefore do not only look at freshly built middlewares but also at ones that carry
+// state left behind by earlier calls.
+const nRoutes = 7
+
+var routeNames = [nRoutes]string{
+	"NewMiddleware(cfg)",
+	"new(Middleware).Reconfigure(&cfg)",
+	"NewMiddleware(other); requests; Reconfigure(&cfg)",
+	"NewMiddleware(cfg); requests; Reconfigure(&invalid) fails",
+	"NewMiddleware(cfg); SetDebug(true); Reconfigure(nil); request; Reconfigure(&cfg)",
+	"NewMiddleware(cfg); requests; Reconfigure(Config())",
+	"NewMiddleware(other); Reconfigure(&cfg) performed from inside ResponseWriter.Header() of an in-flight request",
+}
+
+var routeOther = CfgLit{Origins: []string{"https://*.example:*", "http://*.example:*", "https://*.b:*", "https://*.a:*", "https://a.b", "https://a.example"}, Credentialed: true, TolInsecure: true, TolPSL: true,
+	Methods: []string{"*"}, RequestHeaders: []string{"*"}, ResponseHeaders: []string{"X-Other"}, MaxAge: 77, PNA: true, Status: 299}
+
+var routeInvalid = CfgLit{Origins: []string{"https://c.example", "https://c.example/path"}, Methods: []string{"QUERY"}, MaxAge: -2}
+
+// reentrantRW performs a call on the middleware from inside Header() (once).
+type reentrantRW struct {
+	vlib.Rec
+	do func()
+}
+
+func (w *reentrantRW) Header() http.Header {
+	if w.do != nil {
+		f := w.do
+		w.do = nil
+		f()
+	}
+	return w.H
+}
+
+// warmUp serves a few requests (actual and preflight, from origins the other configuration allows).
+func warmUp(m *cors.Middleware, extra ...vlib.Req) {
+	h := m.Wrap(noopHandler)
+	reqs := append([]vlib.Req{
+		{Method: "GET", Hdr: map[string][]string{"Origin": {"https://a.example"}}},
+		{Method: "OPTIONS", Hdr: map[string][]string{"Origin": {"https://x.a.example:8443"}, "Access-Control-Request-Method": {"PUT"}, "Access-Control-Request-Headers": {"x-a,x-b"}, "Access-Control-Request-Private-Network": {"true"}}},
+		{Method: "GET", Hdr: map[string][]string{"Origin": {"https://evil.example"}}},
+		{Method: "OPTIONS"},
+	}, extra...)
+	for _, r := range reqs {
+		h.ServeHTTP(vlib.NewRec(), r.HTTP())
+	}
+}
+
+// buildVia builds a middleware for lit through the given route and then sets the debug mode.
+func buildVia(route int, lit CfgLit, debug bool, extra ...vlib.Req) (*cors.Middleware, error) {
+	cfg := lit.Config()
+	var m *cors.Middleware
+	var err error
+	switch route {
+	case 0:
+		m, err = cors.NewMiddleware(cfg)
+	case 1:
+		m = new(cors.Middleware)
+		err = m.Reconfigure(&cfg)
+	case 2, 6:
+		m, err = cors.NewMiddleware(routeOther.Config())
+		if err != nil {
+			return nil, fmt.Errorf("auxiliary configuration rejected: %w", err)
+		}
+		m.SetDebug(!debug)
+		warmUp(m, extra...)
+		if route == 2 {
+			err = m.Reconfigure(&cfg)
+		} else {
+			// the reconfiguration lands while a request from an origin allowed by the old configuration is in flight
+			reqs := append([]vlib.Req{{Method: "GET", Hdr: map[string][]string{"Origin": {"https://a.example"}}}}, extra...)
+			h := m.Wrap(noopHandler)
+			for i, r := range reqs {
+				w := &reentrantRW{Rec: *vlib.NewRec()}
+				if i == len(reqs)-1 {
+					w.do = func() {
+						// with a watchdog: a middleware that held its lock across calls into the ResponseWriter
+						// would block here forever
+						done := make(chan error, 1)
+						go func() { done <- m.Reconfigure(&cfg) }()
+						select {
+						case err = <-done:
+						case <-time.After(120 * time.Second):
+							err = fmt.Errorf("Reconfigure called from inside ResponseWriter.Header() did not return within 120 s (deadlock)")
+						}
+					}
+				}
+				h.ServeHTTP(w, r.HTTP())
+			}
+		}
+	case 3:
+		m, err = cors.NewMiddleware(cfg)
+		if err == nil {
+			warmUp(m, extra...)
+			bad := routeInvalid.Config()
+			if e := m.Reconfigure(&bad); e == nil {
+				return nil, fmt.Errorf("invalid auxiliary configuration accepted")
+			}
+		}
+	case 4:
+		m, err = cors.NewMiddleware(cfg)
+		if err == nil {
+			m.SetDebug(true)
+			if e := m.Reconfigure(nil); e != nil {
+				return nil, e
+			}
+			warmUp(m, extra...)
+			err = m.Reconfigure(&cfg)
+		}
+	case 5:
+		m, err = cors.NewMiddleware(cfg)
+		if err == nil {
+			warmUp(m, extra...)
+			err = m.Reconfigure(m.Config())
+		}
+	default:
+		return nil, fmt.Errorf("unknown route %d", route)
+	}
+	if err != nil {
+		return nil, err
+	}
+	m.SetDebug(debug)
+	return m, nil
+}
